@@ -1,6 +1,17 @@
 (* EngineSafetyRL.v -- safety of the code-length reader readLitDistLens (rl_loop, rl_put, rl_rep,
    clc_decode, expand_adjust) of RModel/Engine.v, and the histogram invariants it establishes
-   (rl_post).  Main theorem: readLitDistLens_spec (statement exactly as requested). *)
+   (rl_post).  Main theorem: readLitDistLens_spec (statement exactly as requested).
+
+   Structure: count_len / ex_dec / ex_inc under one aset; expand_adjust modulo 2^16; the loop-state
+   invariant RLI and the "virtual position" vpos (advances by exactly one per stored length, which
+   gives both "rl_put never fails" and the fuel measure); rl_put_spec, rl_rep_spec,
+   clc_decode_spec; rl_loop_spec by induction on the fuel; rld_body_spec (readLitDistLens with an
+   arbitrary fuel worth 1024) and finally readLitDistLens_spec.
+
+   Note for users of this file: any kernel conversion between [readLitDistLens s a b] and its
+   unfolded body makes Coq unroll [rl_loop small_fuel] (does not terminate in practice).  The
+   single place where this is needed (rld_body_eq) is checked under
+   [Local Strategy opaque [small_fuel]]; everything else is stated for a variable fuel. *)
 From Verif Require Import Engine EngineTables.
 From Verif Require Import Base EngineSafetyBase EngineSafetyBits EngineSafetyInv.
 From Coq Require Import List NArith ZArith Bool Lia ZifyBool ZifyNat ZifyN.
@@ -573,8 +584,21 @@ Proof.
 Qed.
 
 (* ---------------------------------------------------------------- the theorem *)
-Theorem readLitDistLens_spec : forall s hdist hlit s' e,
-  readLitDistLens s hdist hlit = (s', e) -> hdist <= 29 -> hlit <= 29 ->
+(* readLitDistLens with its fuel as a parameter.  All reasoning is done for an arbitrary fuel;
+   the only conversion the kernel has to perform on the concrete [small_fuel] is the unfolding
+   equation rld_body_eq below. *)
+Definition rld_body (fuel : nat) (s : inflate) (hdist hlit : N) : inflate * ierr :=
+  let d := dyn s in
+  let endv := Z.of_N (litLen + hdist + 1) in
+  let split := Z.of_N (litTableSize + hlit) in
+  let st0 := mkRL (rd s) (litAndDistHuff d) (litCount d) (distCount d) (litExpandCount d)
+                  0%Z (-1)%Z false in
+  let '(st, err) := rl_loop fuel (clcShort d) (clcLong d) split endv st0 in
+  (set_rd (set_dyn s (set_dyn_counts d (rl_h st) (rl_lc st) (rl_dc st) (rl_ex st))) (rl_b st), err).
+
+Lemma rld_body_spec : forall fuel s hdist hlit s' e,
+  Z.of_nat fuel = 1024%Z ->
+  rld_body fuel s hdist hlit = (s', e) -> hdist <= 29 -> hlit <= 29 ->
   br_inv (rd s) -> (0 <= r_len (rd s))%Z -> clc_ok (dyn s) ->
   litAndDistHuff (dyn s) = aempty -> litCount (dyn s) = aempty -> distCount (dyn s) = aempty ->
   litExpandCount (dyn s) = aempty ->
@@ -590,10 +614,8 @@ Theorem readLitDistLens_spec : forall s hdist hlit s' e,
   codeList (dyn s') = codeList (dyn s) /\ nextCode (dyn s') = nextCode (dyn s) /\
   lenHuffCodes (dyn s') = lenHuffCodes (dyn s).
 Proof.
-  intros s hdist hlit s' e Hrun Hd Hl Hb Hlen Hclc Hh Hlc Hdc Hex.
-  unfold readLitDistLens in Hrun. cbv zeta in Hrun.
-  assert (Hfuel : Z.of_nat small_fuel = 1024%Z) by reflexivity.
-  set (fuel := small_fuel) in *. clearbody fuel.
+  intros fuel s hdist hlit s' e Hfuel Hrun Hd Hl Hb Hlen Hclc Hh Hlc Hdc Hex.
+  unfold rld_body in Hrun. cbv zeta in Hrun.
   rewrite Hh, Hlc, Hdc, Hex in Hrun.
   unfold litLen, litTableSize in Hrun.
   set (endv := Z.of_N (286 + hdist + 1)) in *.
@@ -618,6 +640,40 @@ Proof.
   split; [unfold same_outer; cbn [inputNil ov tb phase bfinal litBlockLength headerBuffered
                                   headerBuffer roffset]; repeat split; reflexivity|].
   repeat split; reflexivity.
+Qed.
+
+(* With the default unfolding order the kernel unrolls [rl_loop small_fuel] while comparing
+   readLitDistLens with its own body and does not come back; unfolding [small_fuel] last makes
+   the comparison immediate.  The setting is local to this file. *)
+Local Strategy opaque [small_fuel].
+
+Lemma rld_body_eq : forall s hdist hlit,
+  readLitDistLens s hdist hlit = rld_body small_fuel s hdist hlit.
+Proof. intros s hdist hlit. reflexivity. Qed.
+
+Lemma small_fuel_val : Z.of_nat small_fuel = 1024%Z.
+Proof. reflexivity. Qed.
+
+Theorem readLitDistLens_spec : forall s hdist hlit s' e,
+  readLitDistLens s hdist hlit = (s', e) -> hdist <= 29 -> hlit <= 29 ->
+  br_inv (rd s) -> (0 <= r_len (rd s))%Z -> clc_ok (dyn s) ->
+  litAndDistHuff (dyn s) = aempty -> litCount (dyn s) = aempty -> distCount (dyn s) = aempty ->
+  litExpandCount (dyn s) = aempty ->
+  (e = ENone \/ e = EEndInput \/ e = EInvalidBlock) /\
+  br_inv (rd s') /\
+  (e = EEndInput -> r_inlen (rd s') = 0) /\
+  (avail (rd s') <= avail (rd s))%Z /\ r_inlen (rd s') <= r_inlen (rd s) /\
+  (-80 <= r_len (rd s'))%Z /\
+  (e = ENone -> rl_post (litAndDistHuff (dyn s')) (litCount (dyn s')) (distCount (dyn s'))
+                        (litExpandCount (dyn s'))) /\
+  same_outer s s' /\
+  clcShort (dyn s') = clcShort (dyn s) /\ clcLong (dyn s') = clcLong (dyn s) /\
+  codeList (dyn s') = codeList (dyn s) /\ nextCode (dyn s') = nextCode (dyn s) /\
+  lenHuffCodes (dyn s') = lenHuffCodes (dyn s).
+Proof.
+  intros s hdist hlit s' e Hrun.
+  apply (rld_body_spec small_fuel s hdist hlit s' e small_fuel_val).
+  rewrite <- rld_body_eq. exact Hrun.
 Qed.
 
 Print Assumptions readLitDistLens_spec.
